@@ -13,6 +13,7 @@ DRIVERS = ["driver"]
 RULE = ("[uni] for every public UniLpMarket operation (add_liquidity, add_liquidity_by_tick, _add_liquidity_by_tick, remove_liquidity, collect_fee, "
         "remove_all_liquidity, swap, buy, sell, even_rebalance, add_liquidity_by_value, transfer_position_in/out) and every rejection cause the "
         "code has (closed market, tick spacing, lower>upper, empty range, tick out of bounds, token0 short, token1 short with token0 sufficient, "
+        "token1 short after token0's debit fell into Asset.sub's snap-to-zero window (balance within 1e-5 of the amount, either side, new and existing position), "
         "token missing from the wallet, unknown position, negative liquidity / collect amount, transferred position, same / foreign token, "
         "negative swap amount, zero price, value above balance, tick on the range bound) a state is built in which exactly that precondition "
         "fails, after a random prefix of accepted operations; plus a stream of mostly-valid random operations. "
@@ -37,6 +38,17 @@ def rand_range(rng, w, around=True):
     return c - a - b, c - a          # price above the range
 
 
+def raw_range(rng, w, around=True):
+    """a range for an entry point that trims its ticks: aligned, exactly half way between two usable ticks (the rounding tie), or anywhere"""
+    sp = w.pool.tick_spacing
+
+    def raw(t):
+        k = rng.random()
+        return t if k < 0.5 else (t + rng.choice((-1, 1)) * (sp // 2) if k < 0.8 else t + rng.randint(-sp + 1, sp - 1))
+    lo, up = rand_range(rng, w, around)
+    return raw(lo), raw(up)
+
+
 def amt(rng, hi=6):
     return Decimal(rng.randint(1, 10 ** rng.randint(1, hi))) / Decimal(10 ** rng.randint(0, 4))
 
@@ -48,7 +60,7 @@ def valid_op(rng, w):
     bb = w.broker.assets[w.pool.base_token].balance if w.pool.base_token in w.broker.assets else Decimal(0)
     qb = w.broker.assets[w.pool.quote_token].balance if w.pool.quote_token in w.broker.assets else Decimal(0)
     if r < 0.3 or not keys:
-        lo, up = rand_range(rng, w)
+        lo, up = raw_range(rng, w)
         return {"op": "add_by_tick", "lower": lo, "upper": up, "base": bb * Decimal(rng.choice(("0.1", "0.3", "0.5"))),
                 "quote": qb * Decimal(rng.choice(("0.1", "0.3", "0.5"))), "sqrt": None, "tick": None, "trim": True}
     k = rng.choice(keys)
@@ -65,7 +77,7 @@ def valid_op(rng, w):
     if r < 0.8:
         return {"op": "even_rebalance", "price": None}
     if r < 0.9:
-        lo, up = rand_range(rng, w)
+        lo, up = raw_range(rng, w)
         return {"op": "add_by_value", "lower": lo, "upper": up, "value": (qb + bb * w.price) * Decimal(rng.choice(("0.1", "0.5", "0.9"))), "trim": True}
     lo, up = rand_range(rng, w)
     p1, p2 = w.market.tick_to_price(lo), w.market.tick_to_price(up)
@@ -77,7 +89,8 @@ CAUSES = [
     ("add_by_tick", "closed"), ("add_by_tick", "spacing"), ("add_by_tick", "empty-range"), ("add_by_tick", "tick-bound"),
     ("add_by_tick", "token0-short"), ("add_by_tick", "token1-short"), ("add_by_tick", "both-short"), ("add_by_tick", "base-missing"),
     ("add_by_tick", "quote-missing"), ("add_by_tick", "zero-price"), ("add_by_tick", "tick-arg-bound"), ("add_by_tick", "existing-token1-short"),
-    ("add_raw", "lower>upper"), ("add_raw", "spacing"), ("add_raw", "token1-short"), ("add_raw", "closed"),
+    ("add_by_tick", "token0-snap-token1-short"), ("add_by_tick", "existing-token0-snap-token1-short"),
+    ("add_raw", "lower>upper"), ("add_raw", "spacing"), ("add_raw", "token1-short"), ("add_raw", "closed"), ("add_raw", "token0-snap-token1-short"),
     ("add", "closed"), ("add", "token1-short"), ("add", "token0-short"),
     ("remove", "unknown"), ("remove", "negative"), ("remove", "closed"), ("remove", "transferred"), ("remove", "zero-price"),
     ("collect", "unknown"), ("collect", "negative"), ("collect", "closed"), ("collect", "transferred"),
@@ -103,6 +116,26 @@ def ensure_position(rng, w):
 def zero_price(w):
     d = w.market.market_status.data
     w.set_status(int(d.closeTick), Decimal(0), Decimal(d.currentLiquidity), d.inAmount0, d.inAmount1)
+
+
+def snap_window(rng, w, a0, a1, lo, up):
+    """balances for "the first debit lands in Asset.sub's snap-to-zero window, the second debit is refused": token0's balance within 1e-5
+    relative of what the add will use (a little more, a little less, or exactly that), token1's balance half of what it needs.
+    Returns False if this add would not use both tokens."""
+    from demeter.uniswap.core import V3CoreLib
+    from demeter.uniswap.helper import base_unit_price_to_sqrt_price_x96
+    pool = w.pool
+    try:
+        s = base_unit_price_to_sqrt_price_x96(w.market.market_status.data.price, pool.token0.decimal, pool.token1.decimal, pool.is_token0_quote)
+        u0, u1 = V3CoreLib.new_position(pool, a0, a1, lo, up, s)[:2]
+    except Exception:  # noqa: BLE001
+        return False
+    if u0 <= 0 or u1 <= 0:
+        return False
+    delta = Decimal(rng.choice((0, 1, -1, 3, -3, 9, -9, 99, -99))) / Decimal(10 ** rng.choice((6, 7, 9)))   # |delta| < 1e-5 (snap), 9.9e-5 (no snap)
+    w.broker.set_balance(pool.token0, u0 * (1 + delta))
+    w.broker.set_balance(pool.token1, u1 / 2)
+    return True
 
 
 def rejected_op(rng, w, opk, cause):
@@ -150,6 +183,16 @@ def rejected_op(rng, w, opk, cause):
                 bb, qb = br.assets[pool.base_token].balance, br.assets[pool.quote_token].balance
                 add.update(lower=k.lower_tick, upper=k.upper_tick, base=bb * 3 + 1, quote=qb * 3 + 1)
                 br.set_balance(pool.token0, big * 10 ** 6)
+            elif cause in ("token0-snap-token1-short", "existing-token0-snap-token1-short"):
+                if cause.startswith("existing"):
+                    k = ensure_position(rng, w)
+                    if k is None or not (k.lower_tick < w.tick < k.upper_tick):
+                        return None
+                    bb, qb = br.assets[pool.base_token].balance, br.assets[pool.quote_token].balance
+                    add.update(lower=k.lower_tick, upper=k.upper_tick, base=bb / 2, quote=qb / 2)
+                a0, a1 = (add["quote"], add["base"]) if pool.is_token0_quote else (add["base"], add["quote"])
+                if not snap_window(rng, w, a0, a1, add["lower"], add["upper"]):
+                    return None
             return add
         if opk == "add_raw":
             a0, a1 = (qb / 2, bb / 2) if pool.is_token0_quote else (bb / 2, qb / 2)
@@ -161,6 +204,9 @@ def rejected_op(rng, w, opk, cause):
             elif cause == "token1-short":
                 raw.update(a0=a0 * 5, a1=a1 * 5)
                 br.set_balance(pool.token0, big * 10 ** 6)
+            elif cause == "token0-snap-token1-short":
+                if not snap_window(rng, w, a0, a1, lo, up):
+                    return None
             return raw
         p1, p2 = m.tick_to_price(lo), m.tick_to_price(up)
         o = {"op": "add", "lower_price": min(p1, p2), "upper_price": max(p1, p2), "quote": qb / 2, "base": bb / 2}
@@ -283,7 +329,8 @@ def step(ctx, rng, w, op, tag, reqs, rep_prefix):
         for name in wrapped:
             delattr(m, name)
     after = w.dump()
-    rep = {"prefix": rep_prefix, "op": {k: (fmt(v) if isinstance(v, Decimal) else v) for k, v in op.items()}, "world": w.spec}
+    rep = {"prefix": rep_prefix, "op": {k: (fmt(v) if isinstance(v, Decimal) else v) for k, v in op.items()}, "world": w.spec,
+           "wallet": before["wallet"], "open": before["open"]}
     if op.get("lt", 0) is None or op.get("tick_est", 0) is None:
         pass   # the float helper itself raised: outside the model, oracle only
     else:
@@ -354,10 +401,13 @@ def run(ctx: Ctx):
                 d = U.diff_json(res, o["result"])
                 if d:
                     ctx.disagree(f"uni.step {tag}: result differs at {d}", rep)
+    U.report_process_state(ctx)
 
 
 def replay(ctx: Ctx, case) -> bool:
     import random
+    if isinstance(case, dict) and case.get("kind") == "process-state":
+        return U.replay_process_state(case)
     sub = Ctx(ctx.prop, ctx.tier, ctx.seed, False)
     U.cap_violations(sub)
     rng = random.Random(0)
@@ -368,9 +418,16 @@ def replay(ctx: Ctx, case) -> bool:
                 balances=None if bal is None else tuple(None if x is None else Decimal(x) for x in bal))
     w.spec = case["world"]
     # the stored prefix fixes the operations, not the random balances: replay checks the property on a fresh world of the same shape
-    for op in case["prefix"] + [case["op"]]:
+    ops = case["prefix"] + [case["op"]]
+    for i, op in enumerate(ops):
         op = {k: (Decimal(v) if k in ("a0", "a1", "base", "quote", "amount", "price", "value", "max0", "max1", "lower_price", "upper_price") and v is not None else v)
               for k, v in op.items() if k not in ("lt", "ut", "tick_est", "ratio_amt")}
+        if i == len(ops) - 1 and case.get("wallet") is not None:
+            # the wallet the failing call saw (balance-dependent causes: short token, snap-to-zero window)
+            for name, b in case["wallet"]:
+                fb = Fraction(b)
+                w.broker.set_balance(w.tok(name), Decimal(fb.numerator) / Decimal(fb.denominator))
+            w.market.is_open = bool(case.get("open", True))
         step(sub, rng, w, op, f"{op['op']}:replay", [], [])
     for v in sub.violations:
         print("  ", v["key"], v["what"])
